@@ -188,6 +188,14 @@ def u_ctl():
     add("ctl-multi", ["a: %s" % Q2, "b: %s" % Q2], Q2, ["x, y = a, b", "x, y = y, x + y", "return y ^ x"])
     add("ctl-multi", ["a: %s" % Q2, "b: %s" % Q2], Q2, ["x = a", "y = b", "for i in range(2):", "    x, y = y, x + y", "return x"])
     add("ctl-multi", ["a: bool", "b: bool"], "bool", ["a, b = b, a", "return a and not b"])
+    # aliases: two names for one value
+    add("ctl-alias", ["a: bool", "b: bool", "c: bool"], "bool", ["last = a", "return (last ^ a) or (b and c)"])
+    add("ctl-alias", ["a: %s" % Q2, "b: %s" % Q2], Q2, ["s = a", "s += a", "return s + b"])
+    add("ctl-alias", ["a: bool", "b: bool"], "bool", ["x = a", "y = x", "return x ^ y ^ b"])
+    add("ctl-alias", ["a: bool", "b: bool"], "bool", ["x = a", "y = a", "return (x and b) ^ (y and b) ^ a"])
+    add("ctl-alias", ["a: %s" % Q2], Q2, ["b = a", "c = b", "return (a ^ b) + c"])
+    add("ctl-alias", ["a: bool", "b: bool", "c: bool"], "bool", ["v = a and b", "x = v and c", "v = v ^ c", "y = v and c", "return x ^ y"])
+    add("ctl-alias", ["a: bool", "b: bool", "c: bool"], "Tuple[bool, bool]", ["x = (a ^ b) and c", "y = a and c", "return (x ^ y, x)"])
     add("ctl-for", ["a: %s" % Q2], Q4, ["c = 0", "for i in range(3):", "    c += a", "return c"])
     add("ctl-for", ["a: %s" % Q2], Q4, ["c = 0", "for i in range(4):", "    c = c + i", "return c + a"])
     add("ctl-for", ["a: %s" % Q4], "bool", ["c = False", "for i in range(4):", "    c = c ^ a[i]", "return c"])
